@@ -5,14 +5,21 @@ import glob, json, os, sys
 ROOT = os.path.dirname(os.path.dirname(os.path.abspath(__file__)))
 BASELINE = "cd /repo && /venv/bin/python -m pytest -ra -q -p no:cacheprovider --timeout=900 --continue-on-collection-errors"
 
-# id -> (category, technique, text, note, design_ref)
-TABLE = {
- "C05": ("model_checking",
-         "explicit-state BFS over call histories on the live Circuit object, state-hash dedup, reference-model + differential oracle on every transition",
-         "All histories up to the stated depth over the event alphabet (every mutator/query of Circuit with all 5 insert strategies, clamped indices, op trees) are executed on the real object; each transition is checked for well-formedness, conservation, per-qubit/per-key order, documented single-op placement, query agreement and differential replay against a freshly rebuilt equal circuit. Exhaustive within the depth/alphabet bound; not a proof for longer histories.",
-         "trusted: numpy/sympy, Moment construction from an op list (used to rebuild the fresh circuit); op values with equal repr are interchangeable",
-         "DESIGN.md section 4 C05"),
-}
+import ast
+
+
+def module_consts(path):
+    """Reads PROPERTY/LEVEL/TECHNIQUE/LEVEL_TEXT/LEVEL_NOTE string constants from a check module without importing it."""
+    tree = ast.parse(open(path).read())
+    out = {}
+    for node in tree.body:
+        if isinstance(node, ast.Assign) and len(node.targets) == 1 and isinstance(node.targets[0], ast.Name):
+            try:
+                out[node.targets[0].id] = ast.literal_eval(node.value)
+            except Exception:
+                pass
+    return out
+
 
 def main():
     props = [json.loads(l) for l in open(os.path.join(ROOT, "properties.jsonl"))]
@@ -20,8 +27,9 @@ def main():
     for p in props:
         pid = p["id"]
         have = glob.glob(os.path.join(ROOT, "checks", pid.lower() + "_*.py"))
-        if pid in TABLE and have:
-            cat, tech, text, note, ref = TABLE[pid]
+        consts = module_consts(have[0]) if have else {}
+        if have and all(k in consts for k in ("LEVEL", "TECHNIQUE", "LEVEL_TEXT", "LEVEL_NOTE")):
+            cat, tech, text, note, ref = consts["LEVEL"], consts["TECHNIQUE"], consts["LEVEL_TEXT"], consts["LEVEL_NOTE"], f"DESIGN.md section 4, {pid}"
             checks.append({
                 "property_id": pid,
                 "quick_cmd": f"./check {pid} --tier quick",
